@@ -114,6 +114,16 @@ def main(argv):
             first = next((l for l in out.splitlines() if l.startswith('VIOLATION')), '')
             kinds = next((l.strip() for l in out.splitlines() if 'unexplained violations by kind' in l), '')
             status = 'CAUGHT' if rc == 1 else ('MISSED rc=%d' % rc)
+            if rc != 1:
+                # a change filed under one property may break another one's statement (its meta.json says which check reports it)
+                for other in mut.get('also', []):
+                    rc2, out2, wall2 = run_check(other, tier, d, outdir)
+                    wall += wall2
+                    if rc2 == 1:
+                        rc, out = 1, out2
+                        kinds = next((l.strip() for l in out2.splitlines() if 'unexplained violations by kind' in l), '')
+                        status = 'CAUGHT by %s (not by %s)' % (other, mut['property'])
+                        break
             if not ok_tests:
                 status += ' (repo tests FAIL with this mutant: not a valid mutant)'
             if rc != 1 or not ok_tests:
